@@ -76,6 +76,14 @@ func init() {
 			}
 		}
 		g.pf("def tuple : List (String × String) :=\n  %s\n\n", leanPairList(tuple))
+		// conversions: what Model/Conv.lean (the decision which conversion is rejected, the identity, or an operation) was written from
+		var convFns [][2]string
+		for _, n := range []string{"Ctx.callExpr", "Ctx.integerConversion", "getIntegerType", "Ctx.methodExpr", "isString", "isByteSlice"} {
+			if fds[n] != nil {
+				convFns = append(convFns, [2]string{n, canonFunc(p, fds[n])})
+			}
+		}
+		g.pf("def conv : List (String × String) :=\n  %s\n\n", leanPairList(convFns))
 		// functions, calls, closures, methods, strings: what the functions model (Model/Fun.lean) was written from
 		var funs [][2]string
 		for _, n := range []string{"Ctx.funcDecl", "Ctx.paramList", "Ctx.returnExpr", "Ctx.returnType", "Ctx.funcLit", "Ctx.callExpr", "Ctx.methodExpr", "Ctx.selectorMethod",
